@@ -4,6 +4,8 @@ import glob, json, os
 rows = []
 for f in sorted(glob.glob("/verif/seeded/*/meta.json")):
     m = json.load(open(f))
+    if m.get("kind") == "neutral":
+        continue
     c = m.get("confirmed", {})
     checks = m.get("checks") or {}
     det = [p for p, v in checks.items() if v.get("exit") == 1]
